@@ -42,7 +42,7 @@ type Oracle struct {
 }
 
 // foldLiteral returns the literal an expression denotes as the grammar's lone
-// literal: a literal node, or a unary minus applied directly to a numeric literal.
+// literal: a literal node, or one sign applied directly to a numeric literal.
 func foldLiteral(e ast.Expr) *Lit {
 	switch n := e.(type) {
 	case *ast.BooleanLiteral:
@@ -54,14 +54,19 @@ func foldLiteral(e ast.Expr) *Lit {
 	case *ast.StringLiteral:
 		return &Lit{Kind: "string", S: n.Value}
 	case *ast.UnaryOp:
-		if n.Op != "-" {
+		sign := int64(1)
+		switch n.Op {
+		case "-":
+			sign = -1
+		case "+":
+		default:
 			return nil
 		}
 		switch in := n.Expr.(type) {
 		case *ast.IntegerLiteral:
-			return &Lit{Kind: "int", I: -in.Value}
+			return &Lit{Kind: "int", I: sign * in.Value}
 		case *ast.RealLiteral:
-			return &Lit{Kind: "real", R: -in.Value}
+			return &Lit{Kind: "real", R: float64(sign) * in.Value}
 		}
 	}
 	return nil
